@@ -25,6 +25,10 @@ def main():
         F = facts.Facts(fact)
         rep = core.Report(pid, tier)
         rep.extra["tree_key"] = key
+        if tier == "thorough":
+            # checker self-tests first (their result is part of the evidence); the verdict below is about /repo itself
+            rep.selftest = core.selftest(pid, mod, int(os.environ.get("VERIF_SEED", "0") or 0))
+            print("self-test: %d/%d seeded variants detected, %d skipped" % (rep.selftest["detected"], rep.selftest["variants"], len(rep.selftest["skipped"])))
         rc = mod.check(F, rep, tier)
         if explain:
             with open(explain) as f: v = json.load(f)
